@@ -21,7 +21,7 @@ class C02(core.Prop):
     uses_registry = True
     rule = ("streams of 1-5 messages of every kind (0-8 children, text with > < & quotes and non-ASCII) in 4 spellings, separated by nothing, "
             "whitespace or XML declarations x partitions {whole, per character, every 1-cut; every 2-cut of short streams; random 3..6-cuts; "
-            "1024-blocks} x threshold {smallest sufficient, 2048, disabled} + the same streams through the three real receive loops; every distinct "
+            "1024-blocks} x threshold {smallest sufficient, 2048, disabled} + the same streams through the three real receive loops, half of them with a neighbouring connection of the same kind served in turns (a third of those ending inside a message); every distinct "
             "spelling is also checked by the model against all clauses of Framing.spelling; non-trivial = more than one piece; distinct by (thr, pieces)")
     assumptions = ["messages are no longer than the threshold when one is set (longer ones are the recorded finding K1 under C08)",
                    "raw text is Latin-1 (what the transports decode); other code points travel as character references"]
@@ -84,6 +84,18 @@ class C02(core.Prop):
                 continue
             pieces = [p for p in bufgen.cuts(rng, text, rng.choice(["cuts", "chars", "whole", "blocks"])) if p]
             add(ms, text, ends, None if tr == "tcp-client-blob" else 2048, pieces, transport=tr)
+            if rng.random() < 0.5:
+                # a neighbouring connection of the same kind whose data arrives in turns with this one's; in a third of
+                # the cases it ends inside its last message.  What a connection delivers depends on its own stream alone.
+                ms2, text2, ends2 = stream(rng.randint(1, 3))
+                lens2 = [e - (ends2[i - 1] if i else 0) for i, e in enumerate(ends2)]
+                if max(lens2) <= 2048 or tr == "tcp-client-blob":
+                    upto = len(text2)
+                    if rng.random() < 0.34:
+                        upto = rng.randint((ends2[-2] if len(ends2) > 1 else 0) + 1, ends2[-1] - 1)
+                    p2 = [q for q in bufgen.cuts(rng, text2[:upto], rng.choice(["cuts", "chars", "blocks", 3])) if q]
+                    cases[-1]["neighbour"] = {"pieces": p2, "first": rng.random() < 0.5,
+                                              "expect": [bufgen.view(m) for m, e in zip(ms2, ends2) if e <= upto]}
         # every distinct spelling against the clauses of Framing.spelling (thr = its own length)
         sp_list = sorted(spellings)
         res, err = core.run_model("buffer", [["spell", [[len(s)], s]] for s in sp_list])
@@ -123,6 +135,9 @@ class C02(core.Prop):
             kinds = [v.get("kind") for _, v in got]
             return "lossless: sent %s, delivered %s (threshold %s, %d pieces, %s)" % (
                 [v["kind"] for v in c["expect"]], kinds, c["thr"], len(c["pieces"]), where)
+        if c.get("neighbour") and obs.get("neighbour") != c["neighbour"]["expect"]:
+            return "lossless: a neighbouring %s connection was sent %s and delivered %s while this one was served" % (
+                where, [v["kind"] for v in c["neighbour"]["expect"]], [v.get("kind") for v in obs.get("neighbour") or []])
         pos, bounds = 0, []
         for p in c["pieces"]:
             pos += len(p)
@@ -134,7 +149,7 @@ class C02(core.Prop):
         return None
 
     def nontrivial(self, c, obs):
-        return core.sha([c["thr"], c["pieces"], c.get("transport")]) if len(c["pieces"]) > 1 else None
+        return core.sha([c["thr"], c["pieces"], c.get("transport"), c.get("neighbour")]) if len(c["pieces"]) > 1 else None
 
     def histogram(self, cases, obs):
         h = {"spellings_checked_against_Framing.spelling": getattr(self, "spell_checked", 0),
@@ -143,6 +158,8 @@ class C02(core.Prop):
         for c in cases:
             k = "%s/thr=%s" % (c.get("transport") or "buffer", "len" if c["thr"] not in (None, 2048) else c["thr"])
             h[k] = h.get(k, 0) + 1
+            if c.get("neighbour"):
+                h["with_a_neighbouring_connection"] = h.get("with_a_neighbouring_connection", 0) + 1
         return h
 
     def sample(self, c, obs):
